@@ -297,5 +297,9 @@ Extraction "model.ml"
   TraitsMulti.tr_stop_when
   TraitsMulti.rt_stop_when
   TraitsMulti.stop_when_obs
+  SCalc.via_stream
+  SCalc.typed_via_stream
+  SCalc.on_stream
+  SCalc.delay
   (*END*).
 Cd "../coq".
